@@ -170,6 +170,9 @@ func (a *API) Add(event []byte) (*balloon.Snapshot, error) {
 func (a *API) AddBulk(bulk [][]byte) ([]*balloon.Snapshot, error) {
 	a.mu.Lock()
 	defer a.mu.Unlock()
+	if len(bulk) == 0 { // RaftNode.AddBulk refuses empty bulks before they reach the balloon
+		return nil, fmt.Errorf("unable to add an empty bulk of events")
+	}
 	ds := make([]refmodel.D, len(bulk))
 	for i, e := range bulk {
 		ds[i] = refmodel.EventDigest(e)
